@@ -452,6 +452,13 @@ func (c *PullClient) newRequest(method string, url *url.URL) *Request {
 }
 
 func (c *PullClient) receiveResponse() (resp *Response, err error) {
+	// a camera that accepts the connection and then stays silent must not
+	// block the requester forever: every handshake read gets a deadline
+	if timeout := config.NetTimeout(); timeout > 0 {
+		if err = c.conn.SetReadDeadline(time.Now().Add(timeout)); err != nil {
+			return nil, err
+		}
+	}
 	resp, err = ReadResponse(c.conn.Reader())
 	if err != nil {
 		return nil, err
